@@ -1093,9 +1093,10 @@ def rule_accept_guard(res, rid, m):
                       (s, t, "accepted" if got else "rejected", "accepted" if exp else "rejected"))
 
 
-def rule_deliver_release(res, rid, m):
-    """C05-R6: delivery on last segment from the current key's entry; stored version /
-    message type are given to the packet and written only by the first-segment constructor."""
+def rule_assembled_by_state(res, rid, m):
+    """isAssembled() is true exactly in state lastSegment and depends on nothing else: decode releases an entry only
+    when a segment is rejected or the message is assembled, so any further condition leaves a finished message
+    neither delivered nor released."""
     fb = m.fb
     role = getattr(m, "roles", None)
     if role is None:
@@ -1103,6 +1104,13 @@ def rule_deliver_release(res, rid, m):
     ia = fb.fn(SEG + "::isAssembled")
     en = fb.enum(MH + "::SegmentType")
     sf = "this->" + role["segment state"].split("::")[-1]
+    other = sorted({x.get("field") for x in ia.nodes() if x.get("k") == "member" and x.get("dk") == "field" and x.get("field") != role["segment state"]} - {None})
+    calls = sorted({callee_name(x) for x in ia.calls()} - {None})
+    if other or calls:
+        res.bad(rid, "isAssembled:state-only", ia.loc,
+                "isAssembled() also depends on %s: a message whose last segment was accepted can stay 'not assembled' — it is then neither "
+                "delivered nor released (decode erases only on rejection or completion)" % ", ".join([o.split("::")[-1] for o in other] + [c.split("::")[-1] + "()" for c in calls]))
+        return
     for e in en["enumerators"]:
         try:
             got = tables.ceval(ia, {sf: e["value"]})
@@ -1111,6 +1119,16 @@ def rule_deliver_release(res, rid, m):
         res.check(bool(got) == (e["name"] == "lastSegment"), rid, "isAssembled:%s" % e["name"], ia.loc,
                   "isAssembled() is %s in state %s" % (bool(got), e["name"]),
                   "isAssembled() returns %s in state %s: delivery does not happen exactly on the last segment" % (bool(got), e["name"]))
+
+
+def rule_deliver_release(res, rid, m):
+    """C05-R6: delivery on last segment from the current key's entry; stored version /
+    message type are given to the packet and written only by the first-segment constructor."""
+    fb = m.fb
+    role = getattr(m, "roles", None)
+    if role is None:
+        raise Broken("rule_accept_guard must run first")
+    rule_assembled_by_state(res, rid, m)
     gp = fb.fn(SEG + "::getPacket")
     mk = [c for c in gp.calls() if (callee_name(c) or "").startswith("std::make_shared")]
     ok = False
